@@ -16,6 +16,11 @@ pub fn families_for(prop: &str) -> Vec<Family> {
             Family { name: "c15_ports", cfg: c15_cfg, run: c15_ports_run },
             Family { name: "c15_dns", cfg: c15_dns_cfg, run: c15_dns_run },
         ],
+        "C02" => vec![
+            Family { name: "c02_perm", cfg: c02_cfg, run: c02_perm_run },
+            Family { name: "c02_rand", cfg: c02_cfg, run: c02_rand_run },
+        ],
+        "C12" => vec![Family { name: "c12", cfg: c12_cfg, run: c12_run }],
         "C03" => vec![
             Family { name: "c03_exh", cfg: c03_exh_cfg, run: c03_exh_run },
             Family { name: "c03_rand", cfg: c03_rand_cfg, run: c03_rand_run },
@@ -684,4 +689,374 @@ fn c15_dns_run(case: &mut Case, rng: &mut Rng) {
 
 fn last_obs() -> Option<String> {
     crate::common::peek_last_obs()
+}
+
+// ---------------------------------------------------------------------------------------------
+// C02: TCP byte stream
+
+fn c02_cfg(rng: &mut Rng) -> CaseCfg {
+    let min = *rng.pick(&[0u64, 0, 1]);
+    CaseCfg {
+        tick_ms: *rng.pick(&[1u64, 2]),
+        hosts: 2,
+        tcpcap: *rng.pick(&[1usize, 1, 2, 3, 5, 64]),
+        minlat_ms: min,
+        maxlat_ms: min + *rng.pick(&[0u64, 3, 8]),
+        rng_seed: rng.next(),
+        desc: rng.chance(1, 3),
+        v6: rng.chance(1, 5),
+        ..CaseCfg::default()
+    }
+}
+
+/// Establish one connection from h0 (slot 2) to a listener on `server` (slot 2 there as well).
+/// `via` selects the destination address form. Returns false if it did not come up.
+fn establish(case: &mut Case, server: usize, via: &str) -> bool {
+    case.ctl(&format!("q h{server} tcp_bind s1 any:80"));
+    case.ctl("step");
+    case.ctl(&format!("q h0 tcp_connect s2 {via}:80"));
+    let slot_srv = if server == 0 { 3 } else { 2 };
+    for _ in 0..(case.cfg.maxlat_ms / case.cfg.tick_ms + 4) {
+        case.ctl("step");
+        case.ctl(&format!("q h{server} tcp_accept s1 s{slot_srv}"));
+        case.ctl("q h0 tcp_cpoll s2");
+        case.ctl("step");
+        let a = last_obs_of(&format!("OP h{server} tcp_accept s1 s{slot_srv}")).unwrap_or_default();
+        let c = last_obs_of("OP h0 tcp_cpoll s2").unwrap_or_default();
+        if a.starts_with("ok") {
+            // connector may need one more poll
+            if !c.starts_with("ok") {
+                case.ctl("q h0 tcp_cpoll s2");
+                case.ctl("step");
+            }
+            return true;
+        }
+    }
+    false
+}
+
+struct ByteSrc {
+    tag: u8,
+    pos: u32,
+}
+
+impl ByteSrc {
+    fn take(&mut self, n: usize) -> String {
+        let mut v = Vec::new();
+        for _ in 0..n {
+            // position-dependent, direction-dependent content
+            v.push(self.tag ^ (self.pos as u8).wrapping_mul(37).wrapping_add((self.pos >> 8) as u8));
+            self.pos += 1;
+        }
+        hex(&v)
+    }
+}
+
+/// Hold the link, write k segments and a FIN, deliver them one at a time in every order
+/// (k ≤ 4, order = case.idx), reading in between; then release and read to EOF.
+fn c02_perm_run(case: &mut Case, rng: &mut Rng) {
+    let (server, via) = (1usize, "h1".to_string());
+    if !establish(case, server, &via) {
+        return;
+    }
+    case.ctl("mark established");
+    let cap = case.cfg.tcpcap;
+    let k = (1 + case.idx % 4).min(cap.max(1));
+    let ps = perms(k + 1); // k data segments + FIN
+    let order = ps[(case.idx / 4) % ps.len()].clone();
+    case.ctl("hold h0 h1");
+    let mut src = ByteSrc { tag: 0xA0, pos: 0 };
+    for _ in 0..k {
+        let n = rng.range(1, 4) as usize;
+        case.ctl(&format!("q h0 tcp_write s2 {}", src.take(n)));
+    }
+    case.ctl("q h0 tcp_shutdown s2");
+    case.ctl("step");
+    case.ctl("links");
+    // messages leave the queue one step after `deliver`, so indexes are recomputed after each step
+    let mut remaining: Vec<usize> = (0..k + 1).collect();
+    for &which in &order {
+        let idx = remaining.iter().position(|x| *x == which).unwrap();
+        remaining.remove(idx);
+        case.ctl(&format!("deliver h0 h1 {idx}"));
+        case.ctl("step");
+        if rng.chance(1, 2) {
+            let op = if rng.chance(1, 4) { "tcp_peek" } else { "tcp_read" };
+            case.ctl(&format!("q h1 {op} s2 {}", rng.range(0, 5)));
+        }
+        case.ctl("step");
+    }
+    case.ctl("release h0 h1");
+    for _ in 0..(case.cfg.maxlat_ms / case.cfg.tick_ms + 2 * k as u64 + 6) {
+        case.ctl(&format!("q h1 tcp_read s2 {}", rng.range(1, 6)));
+        case.ctl("step");
+    }
+    case.ctl("mark drained");
+}
+
+/// Both directions at once, random chunkings, reads, peeks, split halves, latencies that
+/// reorder segments, optional hold / partition in the middle, graceful close.
+fn c02_rand_run(case: &mut Case, rng: &mut Rng) {
+    let (server, via) = match rng.below(6) {
+        0 => (0usize, "h0".to_string()),
+        1 => (0usize, "lo".to_string()),
+        _ => (1usize, "h1".to_string()),
+    };
+    if !establish(case, server, &via) {
+        return;
+    }
+    case.ctl("mark established");
+    let (c, s, cs, ss) = (0usize, server, 2usize, if server == 0 { 3usize } else { 2usize });
+    let mut src_c = ByteSrc { tag: 0x10, pos: 0 };
+    let mut src_s = ByteSrc { tag: 0xC0, pos: 0 };
+    let rounds = rng.range(6, 40);
+    let disturb = server == 1 && rng.chance(1, 3);
+    let mut partitioned = false;
+    let mut c_open = true;
+    let mut s_open = true;
+    for r in 0..rounds {
+        for _ in 0..rng.below(3) {
+            if c_open {
+                let op = if rng.chance(1, 3) { "tcp_pwrite" } else { "tcp_write" };
+                let n = rng.range(1, 5) as usize;
+                // a write that is refused (WouldBlock/Pending) must not consume bytes of the source:
+                // generate, and rewind if it was not accepted
+                let before = src_c.pos;
+                case.ctl(&format!("q h{c} {op} s{cs} {}", src_c.take(n)));
+                case.ctl("step");
+                let o = last_obs_of(&format!("OP h{c} {op} s{cs}")).unwrap_or_default();
+                if !o.starts_with("ok") {
+                    src_c.pos = before;
+                }
+            }
+        }
+        for _ in 0..rng.below(3) {
+            if s_open {
+                let n = rng.range(1, 5) as usize;
+                let before = src_s.pos;
+                case.ctl(&format!("q h{s} tcp_write s{ss} {}", src_s.take(n)));
+                case.ctl("step");
+                let o = last_obs_of(&format!("OP h{s} tcp_write s{ss}")).unwrap_or_default();
+                if !o.starts_with("ok") {
+                    src_s.pos = before;
+                }
+            }
+        }
+        for _ in 0..rng.below(3) {
+            let op = if rng.chance(1, 5) { "tcp_peek" } else { "tcp_read" };
+            case.ctl(&format!("q h{s} {op} s{ss} {}", *rng.pick(&[0u64, 1, 2, 3, 7, 64])));
+        }
+        for _ in 0..rng.below(3) {
+            let op = if rng.chance(1, 5) { "tcp_peek" } else { "tcp_read" };
+            case.ctl(&format!("q h{c} {op} s{cs} {}", *rng.pick(&[0u64, 1, 2, 3, 7, 64])));
+        }
+        if disturb && r == rounds / 2 {
+            match rng.below(3) {
+                0 => {
+                    case.ctl("hold h0 h1");
+                    case.ctl("step");
+                    case.ctl("step");
+                    case.ctl("release h0 h1");
+                }
+                1 => {
+                    case.ctl("partition h0 h1");
+                    partitioned = true;
+                }
+                _ => {
+                    case.ctl("partition1 h0 h1");
+                    partitioned = true;
+                }
+            }
+        }
+        if c_open && rng.chance(1, 12) {
+            case.ctl(&format!("q h{c} tcp_shutdown s{cs}"));
+            c_open = false;
+        }
+        if s_open && rng.chance(1, 12) {
+            case.ctl(&format!("q h{s} tcp_shutdown s{ss}"));
+            s_open = false;
+        }
+        case.ctl("step");
+    }
+    if partitioned {
+        case.ctl("mark partitioned");
+    }
+    if c_open {
+        case.ctl(&format!("q h{c} tcp_shutdown s{cs}"));
+    }
+    if s_open {
+        // drop of the write half also closes the direction gracefully
+        case.ctl(&format!("q h{s} tcp_dropw s{ss}"));
+    }
+    let tail = case.cfg.maxlat_ms / case.cfg.tick_ms + 2 * (src_c.pos.max(src_s.pos) as u64) + 10;
+    for _ in 0..tail {
+        case.ctl(&format!("q h{s} tcp_read s{ss} 64"));
+        case.ctl(&format!("q h{c} tcp_read s{cs} 64"));
+        case.ctl("step");
+    }
+    case.ctl("mark drained");
+}
+
+// ---------------------------------------------------------------------------------------------
+// C12: connect / accept pairing
+
+fn c12_cfg(rng: &mut Rng) -> CaseCfg {
+    let min = *rng.pick(&[0u64, 0, 1, 3]);
+    CaseCfg {
+        tick_ms: 1,
+        hosts: rng.range(2, 3) as usize,
+        minlat_ms: min,
+        maxlat_ms: min + *rng.pick(&[0u64, 4, 9]),
+        rng_seed: rng.next(),
+        desc: rng.chance(1, 3),
+        v6: rng.chance(1, 5),
+        ..CaseCfg::default()
+    }
+}
+
+fn c12_run(case: &mut Case, rng: &mut Rng) {
+    let hosts = case.cfg.hosts;
+    // h0 is the server host; its listener lives in slot 1 (bound to any or lo)
+    let bind_ip = if rng.chance(1, 4) { "lo" } else { "any" };
+    case.ctl(&format!("q h0 tcp_bind s1 {bind_ip}:80"));
+    case.ctl("step");
+    let mut listening = true;
+    let mut next_slot = vec![2usize; hosts];
+    let mut pending: Vec<(usize, usize)> = Vec::new(); // (host, slot) of connects still polled
+    let mut streams: Vec<(usize, usize)> = Vec::new();
+    let rounds = rng.range(8, 40);
+    let mut nonce: u8 = 1;
+    for _ in 0..rounds {
+        match rng.below(12) {
+            0..=3 => {
+                // a new connector, possibly several in the same step from different hosts
+                for _ in 0..rng.range(1, 3) {
+                    let h = rng.below(hosts as u64) as usize;
+                    let s = next_slot[h];
+                    next_slot[h] += 1;
+                    let dst = if h == 0 {
+                        (*rng.pick(&["h0:80", "lo:80", "lo:80"])).to_string()
+                    } else {
+                        match rng.below(10) {
+                            0 => "h0:81".to_string(),
+                            1 => "x0:80".to_string(),
+                            _ => "h0:80".to_string(),
+                        }
+                    };
+                    case.ctl(&format!("q h{h} tcp_connect s{s} {dst}"));
+                    pending.push((h, s));
+                }
+            }
+            4..=6 => {
+                if listening {
+                    let s = next_slot[0];
+                    next_slot[0] += 1;
+                    case.ctl(&format!("q h0 tcp_accept s1 s{s}"));
+                    case.ctl("step");
+                    let o = last_obs_of(&format!("OP h0 tcp_accept s1 s{s}")).unwrap_or_default();
+                    if o.starts_with("ok") {
+                        streams.push((0, s));
+                    }
+                }
+            }
+            7 => {
+                // listener dropped, maybe re-bound later
+                if listening {
+                    case.ctl("q h0 drop s1");
+                    listening = false;
+                } else {
+                    case.ctl(&format!("q h0 tcp_bind s1 {bind_ip}:80"));
+                    listening = true;
+                }
+            }
+            8 => {
+                // a connector gives up
+                if !pending.is_empty() {
+                    let i = rng.below(pending.len() as u64) as usize;
+                    let (h, s) = pending.remove(i);
+                    case.ctl(&format!("q h{h} drop s{s}"));
+                }
+            }
+            9 => {
+                if hosts > 1 {
+                    let b = 1 + rng.below(hosts as u64 - 1) as usize;
+                    let op = *rng.pick(&["hold", "release", "partition", "repair", "partition1", "repair1"]);
+                    if rng.chance(1, 2) {
+                        case.ctl(&format!("{op} h{b} h0"));
+                    } else {
+                        case.ctl(&format!("{op} h0 h{b}"));
+                    }
+                }
+            }
+            _ => {}
+        }
+        // poll every pending connect; successful ones write their nonce
+        let mut still = Vec::new();
+        for (h, s) in pending.drain(..) {
+            case.ctl(&format!("q h{h} tcp_cpoll s{s}"));
+            case.ctl("step");
+            let o = last_obs_of(&format!("OP h{h} tcp_cpoll s{s}")).unwrap_or_default();
+            if o.starts_with("ok") {
+                case.ctl(&format!("q h{h} tcp_write s{s} {}", hex(&[nonce])));
+                nonce = nonce.wrapping_add(1);
+                streams.push((h, s));
+            } else if o.starts_with("pending") {
+                still.push((h, s));
+            }
+        }
+        pending = still;
+        case.ctl("step");
+    }
+    // heal everything, accept what is left, let refusals surface
+    for b in 1..hosts {
+        case.ctl(&format!("release h0 h{b}"));
+        case.ctl(&format!("repair h0 h{b}"));
+    }
+    for _ in 0..(case.cfg.maxlat_ms + 4) {
+        if listening {
+            let s = next_slot[0];
+            next_slot[0] += 1;
+            case.ctl(&format!("q h0 tcp_accept s1 s{s}"));
+            case.ctl("step");
+            let o = last_obs_of(&format!("OP h0 tcp_accept s1 s{s}")).unwrap_or_default();
+            if o.starts_with("ok") {
+                streams.push((0, s));
+            }
+        }
+        let mut still = Vec::new();
+        for (h, s) in pending.drain(..) {
+            case.ctl(&format!("q h{h} tcp_cpoll s{s}"));
+            case.ctl("step");
+            let o = last_obs_of(&format!("OP h{h} tcp_cpoll s{s}")).unwrap_or_default();
+            if o.starts_with("ok") {
+                streams.push((h, s));
+            } else if o.starts_with("pending") {
+                still.push((h, s));
+            }
+        }
+        pending = still;
+        case.ctl("step");
+    }
+    case.ctl("mark settled");
+    // read the nonces on the accepted side, then drop every stream and count
+    for (h, s) in streams.clone() {
+        if h == 0 {
+            case.ctl(&format!("q h0 tcp_read s{s} 4"));
+        }
+    }
+    case.ctl("step");
+    for (h, s) in pending.drain(..) {
+        case.ctl(&format!("q h{h} drop s{s}"));
+    }
+    for (h, s) in streams {
+        case.ctl(&format!("q h{h} drop s{s}"));
+    }
+    for _ in 0..(case.cfg.maxlat_ms + 3) {
+        case.ctl("step");
+    }
+    for h in 0..hosts {
+        case.ctl(&format!("q h{h} count"));
+    }
+    case.ctl("step");
+    case.ctl("mark counted");
 }
